@@ -256,6 +256,18 @@ theorem Clean.id {s : Ledger} {X : List Nat} (wf : s.WF) (own : Owns s X) : Clea
   ⟨fun i => by have := own.2 i; grind,
    fun i hi => Or.inl hi, own.1, Eq.refl _, Nat.le_refl _, Nat.le_refl _, wf⟩
 
+/-- Two runs in a row on the same object: `A` becomes `B` becomes `C`. -/
+theorem Clean.trans_recycle {s s1 s2 : Ledger} {A B C : List Nat} (wf : s.WF)
+    (h1 : Clean s s1 A B) (h2 : Clean s1 s2 B C) : Clean s s2 A C := by
+  refine ⟨?_, ?_, h2.nodup, by rw [h2.sched, h1.sched], Nat.le_trans h1.next h2.next, Nat.le_trans h1.hits h2.hits, h2.wf⟩
+  · intro i
+    rw [h2.live, h1.live]
+    have a1 := h1.fresh i; have a2 := wf i
+    grind
+  · intro i hi
+    have a1 := h2.fresh i hi; have a2 := h1.fresh i; have a3 := h1.next; have a4 := h2.next
+    grind
+
 /-- Blocks that a run did not consume are still owned afterwards. -/
 theorem Clean.keeps {s s' : Ledger} {cons prod Y : List Nat} (c : Clean s s' cons prod) (own : Owns s Y)
     (disj : ∀ i ∈ Y, i ∉ cons) : Owns s' Y :=
